@@ -4,6 +4,7 @@ import (
 	"fmt"
 	"go/ast"
 	"go/types"
+	"os"
 	"sort"
 	"strings"
 )
@@ -651,7 +652,9 @@ func (ex *Exec) havocHeap(st *State, node ast.Node) {
 		r := cnst(fmt.Sprintf("r$%d", bvCounter), SRef)
 		st.ghost["H:$alloc"] = tv(na, nil)
 		ex.assume(st, &Term{Op: "forall", BVars: []*Term{r}, S: SBool, Args: []*Term{tImp(tSelect(old, r), tSelect(na, r))}})
-		ex.assume(st, tNot(tSelect(na, intLit(0))))
+		if os.Getenv("GOVC_NONILALLOC") == "" {
+			ex.assume(st, tNot(tSelect(na, intLit(0))))
+		}
 	}
 }
 
